@@ -36,12 +36,12 @@ REQUIRED = {"R0": [], "R1": ["He"]}
 
 FULL_MENU = (
     [f"add:{r}" for r in ("r0", "r1", "r2", "r3", "r4", "r4w", "r5")]
-    + ["addfile", "rm:first", "rm:last", "rm:list01", "rm:inst:r0", "rm:inst:r2", "rm:insts:r0,r2"]
+    + ["addfile", "rm:first", "rm:last", "rm:list01", "rm:list101", "rm:inst:r0", "rm:inst:r2", "rm:insts:r0,r2"]
     + [f"allowed:{a}" for a in ALLOWED]
     + [f"required:{r}" for r in REQUIRED]
     + ["dedupe", "append:depletion", "append:thermal", "reindex"]
 )
-REDUCED_MENU = ["add:r0", "add:r2", "add:r5", "rm:first", "rm:inst:r0", "allowed:A1", "allowed:A2", "required:R1", "dedupe", "append:depletion"]
+REDUCED_MENU = ["add:r0", "add:r2", "add:r5", "rm:first", "rm:list101", "rm:inst:r0", "allowed:A1", "allowed:A2", "required:R1", "dedupe", "append:depletion"]
 
 
 def species_of(rid):
@@ -119,7 +119,7 @@ class Model:
             if not self.held:
                 return False
             self.held.pop(len(self.held) - 1)
-        elif op == "rm:list01":
+        elif op in ("rm:list01", "rm:list101"):  # the second names the same two positions, unordered and with a repeat
             if len(self.held) < 2:
                 return False
             self.held = self.held[2:]
@@ -208,6 +208,8 @@ def apply_real(net, op):
         net.remove_reaction(len(net.reaction_list) - 1)
     elif op == "rm:list01":
         net.remove_reaction([0, 1])
+    elif op == "rm:list101":
+        net.remove_reaction([1, 0, 1])
     elif op.startswith("rm:inst:"):
         net.remove_reaction(mk(op[8:]))
     elif op.startswith("rm:insts:"):
@@ -327,6 +329,23 @@ def step(history):
             raise
         except Exception as e:
             viols.append((f"C14:render-error:after-{lastk}:{type(e).__name__}", f"history {list(history)}: {e!r}", case))
+        # I7 observers are pure: the same history with every public observer called after every operation (species,
+        # elements, sources/sinks, where_species, duplicate search) must end in the same observable state
+        if len(history) >= 2:
+            try:
+                net2 = Network()
+                for op in history:
+                    apply_real(net2, op)
+                    net2.species, net2.elements, net2.find_source_sink(), net2.where_species("H"), net2.find_duplicate_reaction()
+                    [s.alias for s in net2.species]
+                obs2 = ([(rid_of(r), r.idxfromfile) for r in net2.reaction_list], sorted(s.name for s in net2.species), [sorted(x.name for x in part) for part in net2.find_source_sink()])
+                obs1 = (got_held, got_sp, [gsrc, gsnk])
+                if obs2 != obs1:
+                    viols.append((f"C14:observers-not-pure:after-{lastk}", f"history {list(history)}: with the observers called after every operation the network ends with {obs2}, without them {obs1}", case))
+            except HarnessError:
+                raise
+            except Exception as e:
+                viols.append((f"C14:observers-not-pure:raises:{type(e).__name__}", f"history {list(history)}: replay with interleaved observers raised {e!r}", case))
         # the search key pairs the state of the real object with the state of the reference model: two
         # histories are merged only if BOTH agree, so an implementation state that silently drifted from
         # the model (without an observable difference yet) is still expanded
@@ -465,6 +484,7 @@ def run(ctx):
         "operations are atomic public API calls on a fresh real Network replayed from the history; 'append depletion/desorption' is the loop body of ExtendCommand.handle with the species iterated in name order",
         "reaction equality of the reference: same reactant/product multisets, same window, same type (pool classes A..G)",
         "the invariant is evaluated on every (state, incoming transition), not once per merged state",
+        "I7: every history is executed twice on the real object - silently, and with all public observers (species, elements, find_source_sink, where_species, find_duplicate_reaction, aliases) called after every operation; both must end in the same observable state (observers have no effect on later results)",
     ]
     return {
         "states": states,
@@ -473,7 +493,7 @@ def run(ctx):
         "samples": [{"menu": k, "histories": r.samples} for k, r in results.items()],
         "evaluations": trans + nav + ncli,
         "distinct_nontrivial": states,
-        "rule": "BFS over operation histories on real Network objects: full 24-operation menu to depth 3 (quick) / 5 (thorough), reduced 10-operation menu to depth 5 (quick) / 7 (thorough); every transition executes the real method and is compared with the reference model; plus allowed-setter vs constructor on all add sequences <=3, plus `naunet extend` on 3 inputs x 8 flag sets x 3 remove-species values",
+        "rule": "BFS over operation histories on real Network objects: full 25-operation menu to depth 3 (quick) / 5 (thorough), reduced 11-operation menu to depth 5 (quick) / 7 (thorough); every transition executes the real method and is compared with the reference model; plus allowed-setter vs constructor on all add sequences <=3, plus `naunet extend` on 3 inputs x 8 flag sets x 3 remove-species values",
         "levels": {k: r.per_level for k, r in results.items()},
         "depth_completed": {k: r.depth_completed for k, r in results.items()},
         "disabled_transitions": sum(r.disabled for r in results.values()),
